@@ -1,5 +1,61 @@
-"""Thorough-tier extras (seeded variants, compile-fail witnesses). Filled in per property."""
+"""Thorough-tier extras.
+
+1. The rules of the property are also run on the secondary feature configurations B and C (framework.Run).
+2. Checker self-test ("test the checker both ways"): every catalogue variant of this property (sa/variants.py) and
+   every independently seeded change kept under seeded/ for it is applied to a scratch copy of the CURRENT working
+   tree (never to the repository itself); the variant must still compile and the named rule must fire; the
+   behaviour-preserving ("silent") variants must not fire anything.
+
+The self-test examines the checker, not the repository: its outcome is recorded in the evidence file and on
+stdout (SELFTEST lines) and never turns into a VIOLATION.  A variant whose anchor text no longer exists in the
+working tree (because the tree was edited) is reported as `stale` and skipped.
+"""
+import json, os, queue, sys, time
+from concurrent.futures import ThreadPoolExecutor
+
+VERIF = os.path.dirname(os.path.dirname(os.path.abspath(__file__)))
 
 
 def extras(prop, run, repo):
-    return {}
+    if os.environ.get('VERIF_NO_SELFTEST') == '1' or os.path.abspath(repo).startswith('/var/tmp/smolverif'):
+        return {}
+    from . import variants
+    t0 = time.time()
+    vs = [v for v in variants.VARIANTS if v['prop'] == prop or prop in v.get('props', [])]
+    res = variants.run_many(vs, workers=8, repo=repo) if vs else []
+    out = []
+    for r in res:
+        st = 'stale' if (not r['ok'] and 'catalogue stale' in r.get('why', '')) else ('ok' if r['ok'] else 'MISS')
+        out.append(dict(id=r['id'], status=st, detail=r['why']))
+    # independently seeded changes
+    sd = os.path.join(VERIF, 'seeded')
+    seeds = sorted(d for d in os.listdir(sd) if d.startswith(prop + '-') and os.path.exists(os.path.join(sd, d, 'patch.diff')))
+    q = queue.Queue()
+    for i in range(8):
+        q.put(i)
+
+    def job(s):
+        w = q.get()
+        try:
+            p = os.path.join(sd, s, 'patch.rebased.diff')
+            if not os.path.exists(p):
+                p = os.path.join(sd, s, 'patch.diff')
+            r = variants.run_patch(p, [prop], worker=w, repo=repo)
+            if isinstance(r, dict) and r.get('ok') is False:
+                return dict(id=s, status='stale', detail=r.get('why', '')[:120])
+            rr = r[prop]
+            rules = sorted({l.split()[1].split('=')[1] for l in rr['findings']})
+            return dict(id=s, status='ok' if rules else 'MISS', detail='fired ' + ','.join(rules) if rules else 'no rule fired')
+        finally:
+            q.put(w)
+    if seeds:
+        with ThreadPoolExecutor(max_workers=8) as ex:
+            out += list(ex.map(job, seeds))
+    variants.cleanup()
+    for o in out:
+        print(f"SELFTEST {prop} {o['id']}: {o['status']} ({o['detail'][:100]})")
+    return dict(selftest=dict(variants=len(vs), seeded=len(seeds), ok=sum(1 for o in out if o['status'] == 'ok'),
+                              missed=[o['id'] for o in out if o['status'] == 'MISS'],
+                              stale=[o['id'] for o in out if o['status'] == 'stale'],
+                              results=out, wall_s=round(time.time() - t0, 1),
+                              note="self-test of the checker on scratch copies of the current tree; does not affect the verdict"))
